@@ -221,7 +221,15 @@ def inductive_world(run: Any, L: str, ls: Any, rs: Any) -> Tuple[Optional[str], 
     if len(quants) != 1:
         return None, f"{len(quants)} quantifiers over the comparands, expected one"
     q = quants[0]
-    which, passed, t = q.info
+    if len(q.info) > 3 and q.info[3] == "empty-source":
+        # nothing to compare part by part: vacuously true for all(); right iff both comparands are known to be empty
+        if q.info[0] != "all":
+            return None, "the parts are combined with any(), not all()"
+        if len_eq:
+            ctx.induction_facts = "both comparands are empty"  # type: ignore[attr-defined]
+            return "rfc_eq", None
+        return None, "no parts to compare on one side, but the sizes of the two comparands are never compared (an empty array / object would equal any other)"
+    which, passed, t = q.info[:3]
     if which != "all":
         return None, "the parts are combined with any(), not all()"
     if not passed:
